@@ -531,6 +531,56 @@ def run(chk):
     outs = common.pmap(batch_worker, c11.batches(exe, jobs, size=60 if quick else 25), chunk=1)
     c11.merge(chk, outs)
     existing_top_role_stream(chk)
+    inplace_edit_stream(chk)
+
+
+def inplace_edit_stream(chk):
+    """EDITED graphs in the literal sense: a decoded graph that was already used (queried, encoded) is edited IN PLACE
+    (a variable renamed everywhere, same number of triples); every transform must treat it exactly like a freshly
+    built graph with the same data (nothing remembered from before the edit)."""
+    import penman
+    from penman import transform
+    from penman.graph import Graph
+    from penman.models.amr import model as amr
+    from penman.tree import Tree
+    n = 300 if chk.tier == 'quick' else 3000
+    roles = [':ARG0', ':ARG1', ':mod', ':quant', ':polarity', ':location', ':ARG0-of', ':time']
+    fns = [('reify_edges', lambda g: transform.reify_edges(g, amr)), ('dereify_edges', lambda g: transform.dereify_edges(g, amr)),
+           ('reify_attributes', transform.reify_attributes), ('indicate_branches', lambda g: transform.indicate_branches(g, amr))]
+    for i in range(n):
+        node = gen.random_tree_node(chk.rng, gen.fresh_vars(), maxdepth=chk.rng.choice([1, 2, 3]), wf=True, roles=roles,
+                                    atoms=['x', 'y', '-', '"s"', '7'])
+        text = penman.format(Tree(node), indent=None)
+        try:
+            g = penman.decode(text, model=amr)
+            if len(set(g.triples)) != len(g.triples) or len(g.variables()) < 2:
+                continue
+            # use the graph first
+            g.variables(), g.edges(), g.attributes(), g.reentrancies(), penman.encode(g, model=amr)
+            old = chk.rng.choice(sorted(v for v in g.variables() if v != g.top))
+            new = 'zz9'
+            ren = lambda t: tuple(new if x == old else x for x in t)       # noqa
+            epi = {ren(t): [type(e)(new) if type(e).__name__ == 'Push' and e.variable == old else e for e in es]
+                   for t, es in g.epidata.items()}
+            g.triples[:] = [ren(t) for t in g.triples]
+            g.epidata.clear()
+            g.epidata.update(epi)
+            fresh = Graph(list(g.triples), top=g._top, epidata={t: list(es) for t, es in g.epidata.items()}, metadata=dict(g.metadata))
+        except Exception:      # noqa
+            continue
+        case = {'stream': 'in-place-edit', 'text': text, 'renamed': [old, new]}
+        chk.count(('inplace', text, old))
+        for name, f in fns:
+            try:
+                a = common.canon_graph(common.timed(f, g, seconds=5))
+                b = common.canon_graph(common.timed(f, fresh, seconds=5))
+            except Exception as e:     # noqa
+                chk.fail('raises', f'{name} raised {type(e).__name__} on a graph edited in place', dict(case, transform=name))
+                continue
+            if a != b:
+                chk.fail('history', f'{name} on a graph edited in place differs from the same transform on a freshly built '
+                                    'graph with the same triples, top and markers', dict(case, transform=name))
+        chk.stat('in-place-edited')
 
 
 def existing_top_role_stream(chk):
